@@ -190,7 +190,7 @@ def main(argv):
                 bad += o["status"] != "unsat"
     for (fn, k_), v_ in br.items():
         for side, name in ((0, "then"), (1, "else")):
-            if not v_[side] and (k_ + " " + name) not in v_[2] and not any(k_.startswith(d.rsplit(" @", 1)[0]) and d.endswith(name) for d in v_[2]):
+            if not v_[side] and (k_ + " " + name) not in v_[2]:
                 print("   UNREACHED-BRANCH %s: %s [%s side never explored under the contract]" % (fn, k_, name))
                 bad += 1
     return 1 if bad else 0
